@@ -2,7 +2,7 @@
 # tools/seed_batchN.sh <wave> <PROP> <IDs to check...> : import both patches of /tmp/wt/<PROP>w<wave> (ids: wave 2 -> c/d, 3 -> e/f, 4 -> g/h),
 # confirm them independently and run the given quick checks non-intrusively (tools/mutrun.sh)
 WV="$1"; P="$2"; shift 2
-L=(x x "c d" "e f" "g h" "i j" "k l" "m n" "o p")
+L=(x x "c d" "e f" "g h" "i j" "k l" "m n" "o p" "q r")
 set -- $P "$@"; P=$1; shift
 read A B <<<"${L[$WV]}"
 KEEP=
